@@ -14,6 +14,9 @@ EXTENDS Bcj
 
 Alloc(arch) == 2 * UnfilteredMax(arch)
 ScInit(arch, off) == [now |-> off, fst |-> InitState(arch), buf |-> <<>>, pos |-> 0, filtered |-> 0, ended |-> FALSE]
+\* Initialising a coder object that was used before (next Block, next Stream, a second *_encoder()/_decoder()
+\* call on the same lzma_stream) must give exactly the state of a new one: nothing of `old` survives.
+ScReinit(old, arch, off) == ScInit(arch, off)
 \* lzma_simple_coder_init(): start_offset must be a multiple of the alignment
 InitRet(arch, offLow) == IF offLow % Alignment(arch) # 0 THEN "OPTIONS_ERROR" ELSE "OK"
 
